@@ -513,11 +513,22 @@ func (t *Table) InsertColumn(position int, data []string, width int) error {
 		return fmt.Errorf("数据行数(%d)超过表格行数(%d)", len(data), len(t.Rows))
 	}
 
-	// 更新表格网格
+	// 从文件读入的表格各行的单元格数可能不同（合并单元格、不规则行）；
+	// 在修改任何内容之前检查，避免切片越界
+	for i := range t.Rows {
+		if position > len(t.Rows[i].Cells) {
+			return fmt.Errorf("第%d行只有%d个单元格，无法在位置%d插入列", i, len(t.Rows[i].Cells), position)
+		}
+	}
+
+	// 更新表格网格（读入的表格可能没有tblGrid，或网格列数少于单元格数）
 	newGridCol := TableGridCol{
 		W: fmt.Sprintf("%d", width),
 	}
-	if position == len(t.Grid.Cols) {
+	if t.Grid == nil {
+		t.Grid = &TableGrid{}
+	}
+	if position >= len(t.Grid.Cols) {
 		t.Grid.Cols = append(t.Grid.Cols, newGridCol)
 	} else {
 		t.Grid.Cols = append(t.Grid.Cols[:position+1], t.Grid.Cols[position:]...)
@@ -591,8 +602,17 @@ func (t *Table) DeleteColumn(colIndex int) error {
 		return fmt.Errorf("表格至少需要保留一列")
 	}
 
-	// 删除网格列
-	t.Grid.Cols = append(t.Grid.Cols[:colIndex], t.Grid.Cols[colIndex+1:]...)
+	// 各行的单元格数可能不同：在修改任何内容之前检查
+	for i := range t.Rows {
+		if colIndex >= len(t.Rows[i].Cells) {
+			return fmt.Errorf("第%d行只有%d个单元格，没有第%d列", i, len(t.Rows[i].Cells), colIndex)
+		}
+	}
+
+	// 删除网格列（表格可能没有网格，或网格列数少于单元格数）
+	if t.Grid != nil && colIndex < len(t.Grid.Cols) {
+		t.Grid.Cols = append(t.Grid.Cols[:colIndex], t.Grid.Cols[colIndex+1:]...)
+	}
 
 	// 删除每行的对应单元格
 	for i := range t.Rows {
@@ -619,8 +639,21 @@ func (t *Table) DeleteColumns(startIndex, endIndex int) error {
 		return fmt.Errorf("删除后表格至少需要保留一列")
 	}
 
-	// 删除网格列范围
-	t.Grid.Cols = append(t.Grid.Cols[:startIndex], t.Grid.Cols[endIndex+1:]...)
+	// 各行的单元格数可能不同：在修改任何内容之前检查
+	for i := range t.Rows {
+		if endIndex >= len(t.Rows[i].Cells) {
+			return fmt.Errorf("第%d行只有%d个单元格，没有第%d列", i, len(t.Rows[i].Cells), endIndex)
+		}
+	}
+
+	// 删除网格列范围（表格可能没有网格，或网格列数少于单元格数）
+	if t.Grid != nil && startIndex < len(t.Grid.Cols) {
+		end := endIndex + 1
+		if end > len(t.Grid.Cols) {
+			end = len(t.Grid.Cols)
+		}
+		t.Grid.Cols = append(t.Grid.Cols[:startIndex], t.Grid.Cols[end:]...)
+	}
 
 	// 删除每行的对应单元格范围
 	for i := range t.Rows {
